@@ -5,6 +5,7 @@ import (
 	"fmt"
 	"math/big"
 	"strings"
+	"sync"
 	"testing"
 
 	"github.com/youchainhq/go-youchain/common"
@@ -236,6 +237,11 @@ func runCase(c Case) kit.Result {
 			}
 			return kit.Fail("build", "probe block %d: %v", bi, stepErr)
 		}
+		for _, sk := range step.Skipped {
+			if strings.HasPrefix(sk, "excluded:") || strings.HasPrefix(sk, "skipped:") {
+				labels = append(labels, sk)
+			}
+		}
 		if step.Halted {
 			labels = append(labels, "halted")
 			break
@@ -261,7 +267,8 @@ func runCase(c Case) kit.Result {
 			continue
 		}
 		// evidences the builder's pool kept as pending (future round) and that mature in this block
-		effective := append([]*sc.EvInfo{}, step.Evidences...)
+		// (processing order: the pool holds the earlier-posted ones first)
+		var effective []*sc.EvInfo
 		if !step.AdvSlash {
 			for _, f := range future {
 				if f.Round == step.Parent.NumberU64() {
@@ -271,6 +278,7 @@ func runCase(c Case) kit.Result {
 				}
 			}
 		}
+		effective = append(effective, step.Evidences...)
 		for _, ev := range step.Evidences {
 			if !ev.Spec.Adv && ev.Round > step.Parent.NumberU64() {
 				future = append(future, ev)
@@ -390,14 +398,20 @@ func runCase(c Case) kit.Result {
 			}
 			// (a) nothing assembled from the votes of a validator that has followed the protocol may be accepted
 			if id >= 0 && corp.honest(id) {
-				cls := "honest-validator-slashed"
+				// Attribution. The evidences of a block are processed in order and the first one
+				// the implementation accepts against a validator shadows the later ones
+				// (once-map). Which root-cause classes the tree under test accepts at all is
+				// probed empirically (treeAccepts), so a rejected evidence that merely sits in the
+				// same block (e.g. a true duplicate pair after its repair) is never blamed.
+				cls, culprit := "honest-validator-slashed", gate[0]
 				for _, ev := range gate {
-					if hc := ev.HonestClass(); hc != "" {
-						cls = hc
+					if hc := ev.HonestClass(); hc != "" && treeAccepts(c.Cfg, hc) {
+						cls, culprit = hc, ev
+						break
 					}
 				}
-				return kit.Fail(cls, "block %d: validator %d never signed two different votes of one kind in one round/index, yet an evidence assembled from its votes (via %s) was accepted: %s, %s taken, status %d->%d expelled %v->%v",
-					num, id, via(gate[0]), changed, sc.LU(taken), v.Status, p.Status, v.Expelled, p.Expelled)
+				return kit.Fail(cls, "block %d: validator %d never signed two different votes of one kind in one round/index, yet an evidence assembled from its votes (via %s; pairs %s) was accepted: %s, %s taken, status %d->%d expelled %v->%v",
+					num, id, via(culprit), describePairs(culprit), changed, sc.LU(taken), v.Status, p.Status, v.Expelled, p.Expelled)
 			}
 			// accepted against a validator that did equivocate: once, bounded, expelled
 			bound := sc.PenaltyAmount(v.Token)
@@ -459,6 +473,72 @@ func runCase(c Case) kit.Result {
 	return kit.OK(gatePassing > 0, dedup(labels)...)
 }
 
+var (
+	acceptMu    sync.Mutex
+	acceptCache = map[string]bool{}
+)
+
+// treeAccepts probes once per process whether the tree under test accepts the canonical
+// honest-corpus evidence of a root-cause class (one vote listed twice / prevote A +
+// precommit B / two next-index votes) on a scratch two-node network. It is only used to
+// attribute an already established violation to the right class.
+func treeAccepts(cfg int, class string) bool {
+	acceptMu.Lock()
+	defer acceptMu.Unlock()
+	if v, ok := acceptCache[class]; ok {
+		return v
+	}
+	var pairs []sc.PairSpec
+	switch class {
+	case classDup:
+		pairs = []sc.PairSpec{{Kind: sc.KPrevote, Hash: 0}, {Kind: sc.KPrevote, Hash: 0}}
+	case classCrossKind:
+		pairs = []sc.PairSpec{{Kind: sc.KPrevote, Hash: 0}, {Kind: sc.KPrecommit, Hash: 1}}
+	case classNextIndex:
+		pairs = []sc.PairSpec{{Kind: sc.KNext, Hash: 0}, {Kind: sc.KNext, Hash: 1}}
+	default:
+		return true
+	}
+	accepted := true // if the probe cannot run, do not rule the class out
+	func() {
+		defer func() { recover() }()
+		gen := []sc.GenVal{{ID: 0, Role: 1, YOU: 1500}, {ID: 1, Role: 2, YOU: 800}, {ID: 2, Role: 3, YOU: 200}, {ID: 3, Role: 3, YOU: 200}}
+		net, err := sc.NewNet(cfg, gen)
+		if err != nil {
+			return
+		}
+		defer net.Close()
+		w := sc.NewWorld(net)
+		pre, err := sc.Observe(net.A, net.A.Head().Header())
+		if err != nil {
+			return
+		}
+		step, err := w.Step(sc.BlockSpec{CB: 0, Ev: []sc.EvSpec{{Signer: 102, Index: 1, VoteType: pairs[0].Kind, Pairs: pairs, Adv: true}}}, sc.Excl{})
+		if err != nil || step.Halted || len(step.Evidences) != 1 || !step.Evidences[0].PassesGate {
+			return
+		}
+		post, err := sc.Observe(net.A, step.Built.Block.Header())
+		if err != nil {
+			return
+		}
+		main := step.Evidences[0].Accused
+		a, b := pre.ValByMain[main], post.ValByMain[main]
+		if a != nil && b != nil {
+			accepted = sameRecord(a, b) != ""
+		}
+	}()
+	acceptCache[class] = accepted
+	return accepted
+}
+
+func describePairs(ev *sc.EvInfo) string {
+	var parts []string
+	for _, p := range ev.Pairs {
+		parts = append(parts, fmt.Sprintf("kind%d:hash%d", p.Kind, p.Hash))
+	}
+	return strings.Join(parts, "+")
+}
+
 func via(ev *sc.EvInfo) string {
 	if ev.Spec.Adv {
 		return "proposer-chosen SlashData"
@@ -488,6 +568,6 @@ var _ = kit.Register(kit.Prop[Case]{
 		"evidence pool (event mux) or placed into SlashData by an adversarial proposer. Non-trivial: at least one evidence decodes, names an existing " +
 		"signer and all its signatures verify.",
 	Gen: genCase, Run: runCase,
-	Quick: 100, Thorough: 3000, Chunk: 25, MinNonTrivialPct: 25,
+	Quick: 150, Thorough: 1200, Chunk: 25, MinNonTrivialPct: 25,
 	QuickBudgetS: 60, ThoroughBudgetS: 540,
 })
